@@ -78,7 +78,7 @@ def _sparse():
     """The calculate-only sequences of C08's sparse-range shapes: rectangles most of whose cells are unpopulated, supplied
     whole, in part and through a name, with plain recalculations in between (no trace may remain)."""
     from . import c08
-    return [c for c in c08.sparse_cases() if not any(op[0] in ('compile', 'call') for op in c['ops'])]
+    return [c for c in c08.sparse_cases() if not any(op[0] in ('compile', 'call', 'copy') for op in c['ops'])]
 
 
 STRATEGIES = {'histories': _histories}
